@@ -260,6 +260,11 @@ func (tb *TB) renderFPm(t *Term, m Mode) string {
 			panic("renderFP: nan/inf const")
 		}
 		return fmt.Sprintf("((_ to_fp 11 53) #x%016x)", t.V)
+	case KFFromBits:
+		if t.A.W == 32 {
+			return "((_ to_fp 11 53) RNE ((_ to_fp 8 24) " + bvOf(t.A) + "))"
+		}
+		return "((_ to_fp 11 53) " + bvOf(t.A) + ")"
 	case KFFromU:
 		return "((_ to_fp_unsigned 11 53) RNE " + bvOf(t.A) + ")"
 	case KFFromS:
@@ -511,6 +516,11 @@ func eval1(t *Term, m Model, memo map[int]uint64) uint64 {
 		return b2u(ev(t.A) != 0 || ev(t.B) != 0)
 	case KBNot:
 		return b2u(ev(t.A) == 0)
+	case KFFromBits:
+		if t.A.W == 32 {
+			return math.Float64bits(float64(math.Float32frombits(uint32(ev(t.A)))))
+		}
+		return ev(t.A)
 	case KFFromU:
 		return math.Float64bits(float64(ev(t.A)))
 	case KFFromS:
